@@ -31,7 +31,7 @@ CHECK = {
              "checked at the transport; at wind-down (faults off, links up, hold invoices resolved) the conservation equalities are checked. non-trivial = a payment "
              "completed (and, in fault arms, completed after a fault fired); distinct = distinct event-trace hash",
         states_measure="distinct (per-connection queue lengths, payments in flight, Bob's pending/open circuits, faults so far) tuples",
-        expected_probes=["absence_liveness_checks", "fault_cut_inside_write_quit_visible_at_once", "fault_cut_inside_write_then_long_absence", "probe_delivered_behind_unprocessed_message", "probe_forward_success", "probe_forward_failed_back", "probe_bob_settles_upstream", "probe_bob_fails_upstream", "probe_hold_settled",
+        expected_probes=["probe_own_payment_stranded_by_restart", "absence_liveness_checks", "fault_cut_inside_write_quit_visible_at_once", "fault_cut_inside_write_then_long_absence", "probe_delivered_behind_unprocessed_message", "probe_forward_success", "probe_forward_failed_back", "probe_bob_settles_upstream", "probe_bob_fails_upstream", "probe_hold_settled",
                          "probe_hold_cancelled", "probe_cut_with_payments_inflight", "probe_bob_reboot_with_circuits", "probe_payment_completed_after_fault",
                          "fault_cut", "fault_cut_inside_write", "probe_reboot_with_unacked_settlefail_only_pkg", "fault_cut_lost_messages", "fault_restart_bob", "fault_crash_before_fired", "fault_crash_after_fired", "fault_fee_change"],
         real_vs_stub=SWITCHSIM_STUB, assumptions=SWITCHSIM_ASSUME,
@@ -56,7 +56,10 @@ TEXT = {
                            "committed. No honest link ever reports a channel failure. At wind-down quiescence: every payment has a result; sender success iff the receiver's invoice is "
                            "settled (for the offered amount); payments that must be rejected never succeed; no HTLC, pending commitment or circuit is left; msat conservation on all four "
                            "channel ends and agreement of both ends; Bob's holdings over both channels = start + exactly the fees of the successful forwards; Alice's and Carol's deltas "
-                           "match. Exploration is the right level: the schedule/fault space is unbounded and the oracle is scenario independent.",
+                           "match. Payer side (half of the runs let Bob originate payments in the restart and crash arms too): once SendHTLC has accepted a payment, GetAttemptResult "
+                           "(asked again after every restart, like the router) never answers 'unknown attempt' - a switch that holds neither the circuit nor a stored result has lost the "
+                           "outcome of an HTLC it may have been debited for; the one shape lnd leaves to the router (sender restarted while the add was only in memory: half-open local "
+                           "circuit, no value moved) is recognised structurally and excused. Exploration is the right level: the schedule/fault space is unbounded and the oracle is scenario independent.",
                 level_note="Trusted: synctest quiescence; mock onion (route in clear); the repo's in-memory invoice registry fixture. Goroutine order inside one node between two quiescent "
                            "points is the runtime's (property C08 itself quantifies over 'goroutine scheduling as chosen by the runtime'). Two genuine defects found by this engine were "
                            "fixed (45889c1, 1312403; their minimised schedules under regress/ are replayed on every run), a third is recorded as known finding (ForwardPackets drops an add after CommitCircuits when the link quits; found by the cut-inside-write fault). Per-run knobs: batch size, ack-ticker interval (15 s / 1 s / 20 ms), fees, reserves, capacities."),
